@@ -3,10 +3,10 @@ package sim
 import (
 	"context"
 	"fmt"
-	"sync/atomic"
 	"strconv"
 	"strings"
 	"sync"
+	"sync/atomic"
 	"time"
 
 	"github.com/anishathalye/porcupine"
